@@ -258,14 +258,15 @@ class table__c_m_a_p(DefaultTable.DefaultTable):
             {}
         )  # Some tables are different objects, but compile to the same data chunk
         for table in self.tables:
-            offset = seen.get(id(table.cmap))
+            # the subtable's format and language are part of its bytes: a shared
+            # mapping alone does not make two subtables the same
+            key = (id(table.cmap), table.format, table.language)
+            offset = seen.get(key)
             if offset is None:
                 chunk = table.compile(ttFont)
                 offset = done.get(chunk)
                 if offset is None:
-                    offset = seen[id(table.cmap)] = done[chunk] = totalOffset + len(
-                        tableData
-                    )
+                    offset = seen[key] = done[chunk] = totalOffset + len(tableData)
                     tableData = tableData + chunk
             data = data + struct.pack(">HHL", table.platformID, table.platEncID, offset)
         return data + tableData
